@@ -24,7 +24,7 @@ func genPipe(t *rapid.T) PipeCase {
 	var c PipeCase
 	m := Mach{Rsize: rapid.SampledFrom([]int{8, 8, 16}).Draw(t, "rsize")}
 	m.Inputs = rapid.IntRange(1, 2).Draw(t, "inputs")
-	m.Outputs = rapid.IntRange(1, 3).Draw(t, "outputs")
+	m.Outputs = rapid.SampledFrom([]int{1, 2, 3, 1, 2, 3, 11, 12}).Draw(t, "outputs") // (two-digit indexes: o10 sorts before o2 as a string)
 	np := rapid.IntRange(1, 2).Draw(t, "nproc")
 	// the processor that closes the run: straight-line code ending in a handshaked write, so the last output
 	// turns valid after a bounded number of ticks whatever the inputs are
